@@ -54,6 +54,7 @@ type channel struct {
 	streamMut       sync.RWMutex
 	streamBroken    atomicFlag
 	connEstablished atomicFlag
+	streamUp        chan struct{} // wakes a goroutine waiting out a reconnect backoff
 	parentCtx       context.Context
 	streamCtx       context.Context
 	cancelStream    context.CancelFunc
@@ -74,6 +75,7 @@ func newChannel(n *RawNode) *channel {
 		node:            n,
 		latency:         -1 * time.Second,
 		rand:            rand.New(rand.NewSource(time.Now().UnixNano())),
+		streamUp:        make(chan struct{}, 1),
 		responseRouters: make(map[uint64]responseRouter),
 	}
 	// parentCtx controls the channel and is used to shut it down
@@ -321,6 +323,12 @@ func (c *channel) reconnect(maxRetries float64) {
 		if err == nil {
 			c.streamBroken.clear()
 			c.streamMut.Unlock()
+			// the stream is up again; don't let another goroutine
+			// (the receiver) sleep through the rest of its backoff delay.
+			select {
+			case c.streamUp <- struct{}{}:
+			default:
+			}
 			return
 		}
 		c.cancelStream()
@@ -340,6 +348,8 @@ func (c *channel) reconnect(maxRetries float64) {
 		select {
 		case <-time.After(time.Duration(delay)):
 			retries++
+		case <-c.streamUp:
+			// the stream was re-established by another goroutine
 		case <-c.parentCtx.Done():
 			return
 		}
